@@ -4,7 +4,7 @@ Real code : directive.Run in-process (engine/gox/cmd/c03x), one process per dist
             and family are the build's own (DISTRIBUTION env -> getDistribution/getFamily), ABI x version set
             the way the CLI sets them: 30 targets.
 Explored  : (real) every shipped file with an only/exclude directive, other directive kinds neutralised;
-            (generated) every text of <= 4 lines (quick 3, thorough 5) over {3 rule lines, blank, paragraph
+            (generated) every text of <= 4 lines (thorough 5) over {3 rule lines, blank, paragraph
             directive, inline directive} x {only, exclude} x 6 filter lists, at most 2 directives, in four
             wrappers (profile, sub-profile, abstraction, tunable), documented paragraph form only.
 Oracle    : line-based reference model: guarded line = inline-directive line, or line between a paragraph
@@ -21,8 +21,8 @@ PROP = 'C03'
 def run(tier):
     ev = C.Evidence(PROP, tier); fnd = C.Findings(PROP)
     bins = gox.build(os.path.join(C.scratch(), 'gox'), ['c03x'])
-    L = {'quick': 3, 'thorough': 5}[tier]
-    S = 4 if tier == 'quick' else 16
+    L = {'quick': 4, 'thorough': 5}[tier]
+    S = 16
     jobs = [(d, ['-mode', 'real', '-repo', C.REPO]) for d in cfgx.DISTS]
     jobs += [(d, ['-mode', 'generated', '-len', str(L), '-shard', str(i), '-of', str(S)]) for d in cfgx.DISTS for i in range(S)]
 
